@@ -47,11 +47,13 @@ TK_TRACE = [_T + t for t in ['traceDt_eq', 'traceMean_eq']]
 TK_SS = [_T + t for t in ['ssRequiredPwr_eq', 'ssIntegrate_eq', 'ssStep_eq']]
 TK_SL = [_T + t for t in ['fricSetCurMax_eq', 'slRequiredPwr_eq', 'slStep_eq', 'walkCond_eq']]
 TK_TRIP = [_T + t for t in ['scalingFactor_eq']]
+# the check after `self.step()?` in the loop of walk_internal (fix c76dec1)
+TK_WALK = [_T + t for t in ['walkStuck_eq']]
 
-TRAIN_KERNEL_THEOREMS = TK_COMMON + TK_ALMOST + TK_RESIST + TK_TRACE + TK_SS + TK_SL + TK_TRIP
+TRAIN_KERNEL_THEOREMS = TK_COMMON + TK_ALMOST + TK_RESIST + TK_TRACE + TK_SS + TK_SL + TK_TRIP + TK_WALK
 # per property: the equalities for the model functions its theorems are about
 TRAIN_KERNEL_THEOREMS_FOR = {
-    'C03': TK_COMMON + TK_ALMOST + TK_SL,
+    'C03': TK_COMMON + TK_ALMOST + TK_SL + TK_WALK,
     'C07': TK_COMMON + TK_RESIST,
     'C11': TK_COMMON + TK_ALMOST + TK_TRACE + TK_SS + TK_SL + TK_TRIP,
     'C12': TK_COMMON + TK_ALMOST + TK_TRACE + TK_SS + TK_SL,
@@ -67,14 +69,16 @@ TRAIN_KERNEL_ASSUMPTION = (
     'the train layer (the four resistance kinds, calc_res_val, method::Strap::update_res, TrainState::{res_net, mass, '
     'derived_mass, mass_compound}, FricBrake::set_cur_force_max_out, SpeedTrace::{dt, mean}, '
     'SetSpeedTrainSim::{solve_required_pwr, solve_step}, SpeedLimitTrainSim::{solve_required_pwr, solve_step, '
-    'get_scaling_factor, the loop condition of walk_internal}, utils::almost_{eq,le}) are proved EQUAL to the hand-written '
+    'get_scaling_factor, the loop condition of walk_internal and the ensure! after the step in its loop body}, utils::almost_{eq,le}) are proved EQUAL to the hand-written '
     'model (Proofs/TrainKernels.lean) on every check. The translator assumes, beyond the rules of the powertrain '
     'translator: a function returns the objects it may write and an assignment is a nested record update; '
     'speed_trace.time/speed[i], [i-1] are the parameters tCur vCur tPrev vPrev (that the samples exist is not modelled); '
     'uc::ACC_GRAV, uc::rho_air(), uc::MPH * 0.1, 1000.0 * uc::FT, 365.25 are named parameters whose Float values are '
     'checked against uc.rs and the driver; .powi(P2) is x*x; `x as f64` is the identity; .with_context(..) arguments, '
     'bail!/ensure! messages and #[cfg(feature = "logging")] log statements are not read; loco_con.force_max()? is a value '
-    'parameter; loco_con.set_cat_power_limit(..) is skipped. The hand-modelled callees SHARED by both sides of every '
+    'parameter; loco_con.set_cat_power_limit(..) is skipped; of the loop of walk_internal only the condition and the '
+    'shape `let`s / `self.step()?;` / one ensure! of the body are read (the `let`s read the state before the step, the '
+    'ensure! the state after it; step() itself is not translated). The hand-modelled callees SHARED by both sides of every '
     'equality (not re-read from the Rust text) are: path_res::Strap::{calc_res, res_coeff_front, res_coeff_back, '
     'res_net_front}, PathTpc getters, BrakingPoints::calc_speeds, Consist::{set_pwr_aux, set_cur_pwr_max_out, '
     'solve_energy_consumption}, set_link_and_offset; TrainRes::update_res is read as the Strap variant. The output at '
